@@ -36,12 +36,24 @@ CmpFails(e) ==
                      THEN {"hash-not-of-hash-fields"} ELSE {})
           [] OTHER -> {})
 
+(* equality across the inheritance relations: two different subclasses of one (parameterized) class, a     *)
+(* subclass and its base are different classes; a generic subclass with other / no parameters is the same *)
+InhFails(e) ==
+  LET rel == IF e.rel = "subclass-params" THEN "generic" ELSE "other"
+      eq == EqExp(e.cls, e.a, e.b, rel, FALSE) IN
+  (IF e.eq = Tf(eq) /\ e.qe = Tf(eq) THEN {} ELSE {"equality"})
+  \cup (IF e.ne = Tf(~eq) THEN {} ELSE {"inequality"})
+DefSubFails(e) == IF e.out = "ok" THEN {} ELSE {"class-creation-failed"}
+
 MutateFails(e) ==
   IF e.what = "del" THEN (IF e.out = "AttributeError" THEN {} ELSE {"deletion-not-refused"})
   ELSE IF e.cls.frozen = "T" THEN (IF e.out = "FrozenInstanceError" THEN {} ELSE {"frozen-assignment-not-refused"})
   ELSE IF e.out # "ok" THEN {"assignment-refused"}
   ELSE (IF Range(e.set_after) = Range(e.set_before) \cup {e.field} THEN {} ELSE {"set-record-after-assignment"})
        \cup (IF e.stored = "T" THEN {} ELSE {"assignment-not-stored"})
+       \* the instance was hashed before the assignment; afterwards it equals a fresh instance with the same fields
+       \cup (IF "eq_after" \in DOMAIN e /\ e.eq_after = "T" /\ e.heq_after = "F" THEN {"equal-instances-hash-differently"} ELSE {})
+       \cup (IF "eq_after" \in DOMAIN e /\ e.cls.eq = "T" /\ e.eq_after # "T" THEN {"equality"} ELSE {})
 CopyFails(e) ==
   IF e.how \in {"copy", "deepcopy"}
   THEN (IF e.out.k # "ok" THEN {"copy-failed"}
@@ -69,6 +81,8 @@ Fails(e) == CASE e.op = "defvcls" -> DefFails(e)
               [] e.op = "mutate" -> MutateFails(e)
               [] e.op = "copyop" -> CopyFails(e)
               [] e.op = "repr" -> ReprFails(e)
+              [] e.op = "cmpinh" -> InhFails(e)
+              [] e.op = "defsub" -> DefSubFails(e)
               [] OTHER -> {"unknown-event"}
 
 TraceInit == l = 1 /\ bad = {} /\ cls = <<>> /\ xa = <<>> /\ xb = <<>> /\ xc = <<>> /\ ph = "trace"
